@@ -2,7 +2,8 @@
 (* Bounded design-level instance of Gossip: a small message universe (selected by U) is
    delivered in every order with every duplication, interleaved with permanent failures,
    pruning passes and reloads.  Where the observable spec leaves the outcome open the model
-   takes the decision the code takes (precise tombstones ptc/ptp/ptn, CACode, CodeR) and
+   takes the decision the code takes (precise tombstones ptc/ptn of failure reports, made at the
+   start of the run, and ptp: scid -> clock of the pruning call that removed it; CACode, CodeR) and
    CodeWithinSpec checks that this decision is one the observable spec allows.  Prints one
    driver script per reachable state. *)
 EXTENDS Gossip, Json
@@ -71,24 +72,38 @@ Universe ==
         M |-> {CAok(1, 1, 2), CU(1, 0, 200, 1, TRUE, 1, 500000), CU(1, 0, 100, 1, TRUE, 2, 500000),
                CU(1, 1, 100, 2, TRUE, 3, 500000), CU(1, 0, 300, 2, TRUE, 4, 500000),
                NA(1, 200, 1, 1), NA(1, 100, 1, 2), NA(2, 100, -2, 3)}]
+    [] U = 9 ->  \* the memory of removals: a permanently failed node / channel against later gossip
+                 \* of every class -- another channel of the node with the node in either slot, the
+                 \* removed channel again (signed and unsigned entry point), its updates, the node's
+                 \* announcement -- with pruning calls that keep (Early) or drop the memory
+       [lookup |-> FALSE,
+        M |-> {CAok(1, 1, 2), CAok(2, 2, 3), CA(1, 1, 2, -2, -2, 1, TRUE, 0),
+               CU(1, 1, 100, 2, TRUE, 1, 500000), NA(2, 100, 2, 1)}]
+    [] U = 10 -> \* the same with asynchronous lookups: the report arrives while the lookup for
+                 \* another channel of the node is pending
+       [lookup |-> TRUE,
+        M |-> {CAok(1, 1, 2), CAok(2, 2, 3),
+               CU(2, 0, 100, 2, TRUE, 1, 500000), CU(1, 1, 100, 2, TRUE, 2, 500000)}]
+               \* (no node announcements: this model does not follow a held node announcement
+               \* that moves on to another pending lookup; the random runs of the engine do)
 
 M == Universe.M
 
 MCInit ==
   /\ G = EmptyG /\ Gprev = EmptyG
   /\ lookup = Universe.lookup
-  /\ amode = (U = 8)
+  /\ amode = (U \in {8, 10})
   /\ pend = <<>> /\ hl = <<>>
   /\ caps = [c \in 1..3 |-> 1000]
-  /\ tombC = {} /\ tombN = {} /\ delivered = {} /\ eff = {} /\ pure = TRUE
-  /\ ptc = {} /\ ptp = {} /\ ptn = {}
+  /\ tombC = {} /\ tombN = {} /\ remC = {} /\ remN = {} /\ delivered = {} /\ eff = {} /\ pure = TRUE
+  /\ ptc = {} /\ ptp = <<>> /\ ptn = {}
   /\ hist = <<>>
 
 (* the decisions of the implementation *)
 CACodeG(m) ==
   IF ~CAValid(m) THEN "none"
   ELSE IF m.c \in Chs(G) /\ (IF G.ch[m.c].cap >= 0 THEN SamePair(m) ELSE ~lookup) THEN "none"
-  ELSE IF m.c \in ptc \cup ptp \/ m.n1 \in ptn \/ m.n2 \in ptn THEN "none"
+  ELSE IF m.c \in ptc \cup DOMAIN ptp \/ m.n1 \in ptn \/ m.n2 \in ptn THEN "none"
   ELSE IF m.c \in Chs(G) THEN (IF lookup THEN "replace" ELSE "none")
   ELSE "add"
 CACode(m) ==
@@ -134,30 +149,43 @@ MResolve == \E c \in ResolveCs, ok \in BOOLEAN :
   /\ hl' = Restrict(hl, DOMAIN hl \ {c})
   /\ hist' = Append(hist, [op |-> "resolve", c |-> c, ok |-> ok])
   /\ UNCHANGED <<ptc, ptp, ptn>>
+\* a report about a channel overwrites the time of an older tombstone of that channel
 MFailC == \E c \in FailCs :
   /\ FailChan(c)
   /\ ptc' = IF c \in Chs(G) THEN ptc \cup {c} ELSE ptc
+  /\ ptp' = Restrict(ptp, DOMAIN ptp \ (IF c \in Chs(G) THEN {c} ELSE {}))
   /\ hist' = Append(hist, [op |-> "failc", c |-> c])
-  /\ UNCHANGED <<ptp, ptn, hl>>
+  /\ UNCHANGED <<ptn, hl>>
 MFailN == \E n \in FailNs :
   /\ FailNode(n)
   /\ ptc' = ptc \cup ChansOf(G, n)
+  /\ ptp' = Restrict(ptp, DOMAIN ptp \ ChansOf(G, n))
   /\ ptn' = IF n \in Nds(G) THEN ptn \cup {n} ELSE ptn
   /\ hist' = Append(hist, [op |-> "failn", n |-> n])
-  /\ UNCHANGED <<ptp, hl>>
-\* the clock jumps two weeks ahead: tombstones of failures (kept one week) expire, those the
-\* pruning pass itself creates stay
-MPrune == \E t \in PruneTs :
+  /\ UNCHANGED hl
+\* a pruning call with the clock at (start + two weeks + t): tombstones are kept for one week;
+\* those of failure reports date from the start of the run, those of channels the call prunes
+\* (R) are dated with its clock
+PtcAfter(t) == IF 2 * Week + t >= Week THEN {} ELSE ptc
+PtnAfter(t) == IF 2 * Week + t >= Week THEN {} ELSE ptn
+PtpAfter(t, R) ==
+  LET P == 2 * Week + t
+      kept == {c \in DOMAIN ptp : P - ptp[c] < Week}
+  IN [c \in kept \cup R |-> IF c \in R THEN P ELSE ptp[c]]
+\* (a .cfg cannot name negative numbers) universes 9 and 10 also prune with the clock 100 s after
+\* the start of the run, i.e. within the week for which a failure report is remembered
+EarlyTs == IF U \in {9, 10} THEN {100 - 2 * Week} ELSE {}
+MPrune == \E t \in PruneTs \cup EarlyTs :
   /\ Prune(t, CodeR(t))
-  /\ ptc' = {} /\ ptn' = {}
-  /\ ptp' = ptp \cup CodeR(t)
+  /\ ptc' = PtcAfter(t) \ CodeR(t) /\ ptn' = PtnAfter(t)
+  /\ ptp' = PtpAfter(t, CodeR(t))
   /\ UNCHANGED hl
   /\ hist' = Append(hist, [op |-> "prune", t |-> t])
 \* tombstones are not persisted
 MReload ==
   /\ WithReload
   /\ Reload
-  /\ ptc' = {} /\ ptp' = {} /\ ptn' = {} /\ hl' = <<>>
+  /\ ptc' = {} /\ ptp' = <<>> /\ ptn' = {} /\ hl' = <<>>
   /\ hist' = Append(hist, [op |-> "reload"])
 
 MRgs == \E i \in RgsSnaps :
@@ -165,7 +193,8 @@ MRgs == \E i \in RgsSnaps :
       g2 == RgsGraph(G, sn.ts, sn.anns, sn.nodes, sn.upds)
       R == IF sn.prune THEN CodeRFrom(g2, sn.t) ELSE {} IN
   /\ Rgs(sn.ts, sn.anns, sn.nodes, sn.upds, sn.prune, sn.t, R)
-  /\ IF sn.prune THEN ptc' = {} /\ ptn' = {} /\ ptp' = ptp \cup R ELSE UNCHANGED <<ptc, ptp, ptn>>
+  /\ IF sn.prune THEN ptc' = PtcAfter(sn.t) \ R /\ ptn' = PtnAfter(sn.t) /\ ptp' = PtpAfter(sn.t, R)
+     ELSE UNCHANGED <<ptc, ptp, ptn>>
   /\ UNCHANGED hl
   /\ hist' = Append(hist, [op |-> "rgs", ver |-> sn.ver, ts |-> sn.ts, anns |-> sn.anns, nodes |-> sn.nodes, upds |-> sn.upds,
                            prune |-> sn.prune, t |-> sn.t])
@@ -180,9 +209,12 @@ View == <<avars, ptc, ptp, ptn, hl>>
 \* within the over-approximation
 CodeWithinSpec ==
   /\ \A m \in M : Code(m) \in Allowed(m)
-  /\ \A t \in PruneTs : LET g1 == Dropped(G, t) IN
+  /\ \A t \in PruneTs \cup EarlyTs : LET g1 == Dropped(G, t) IN
        MustRemove(g1, t) \subseteq CodeR(t) /\ CodeR(t) \subseteq MayRemove(g1, t)
-  /\ ptc \cup ptp \subseteq tombC /\ ptn \subseteq tombN
+  /\ ptc \cup DOMAIN ptp \subseteq tombC /\ ptn \subseteq tombN
+  \* the code remembers at least the reports the observable spec requires to be remembered
+  \* (a snapshot may re-add what was reported; the memory of that is void in the spec)
+  /\ remC \subseteq ptc /\ remN \subseteq ptn
   \* what the code holds per key while a lookup is pending is what Resolve has to apply
   /\ DOMAIN hl = Pending
   /\ \A c \in Pending :
